@@ -20,6 +20,7 @@ LEVEL_NOTE = ("theorems are about model/Decimal.v + model/Scaling.v + model/Valu
               "physical values outside the envelope are counted and skipped); logging output and exception texts are never compared; "
               "what phys2raw returns for a physical value that is not the image of a raw value (rounding direction, .5 ties), which key "
               "a label carried by several keys converts to, the order of a value table and the winner among colliding key spellings "
+              "and which of the two images of the raw bounds is called min / max when the factor is negative "
               "are open: compared modulo the choice or not generated")
 
 # (factor, offset) as the strings a DBC/ARXML/... reader would hand to Signal(...)
@@ -275,7 +276,31 @@ def run(chk):
         return [z for pair in sorted(zip(g[0::2], g[1::2])) for z in pair]
 
     def canon_402(groups):
-        return groups[:5] + [sort_table_group(groups[5])] if len(groups) == 6 else groups
+        """table as a mapping; the two default limits as an unordered pair (which image of the raw bounds is called min and
+        which max is open for negative factors)"""
+        if len(groups) != 6:
+            return groups
+        lim = groups[3:5]
+        if "outside" in lim:
+            lim = ["outside", "outside"]
+        else:
+            lim = sorted(lim, key=lambda g: Fraction(g[0]) * Fraction(10) ** g[1])
+        return groups[:3] + lim + [sort_table_group(groups[5])]
+
+    def limits_ok(mn, mx, lo, hi, F, O, env):
+        """the default limits are the physical images of the two bounds of the raw range, as a pair (inside the envelope)"""
+        if not isinstance(mn, D) or not isinstance(mx, D):
+            return False
+        ilo, ihi = lo * F + O, hi * F + O
+        in_lo, in_hi = inside_envelope(lo, *env), inside_envelope(hi, *env)
+        got = sorted([Fraction(mn), Fraction(mx)])
+        if in_lo and in_hi:
+            return got == sorted([ilo, ihi])
+        if in_lo:
+            return ilo in got
+        if in_hi:
+            return ihi in got
+        return True
 
     def canon_labels(keysets):
         """a label carried by several keys may convert to ANY of them: answers [1, k] with k among the label's keys are
@@ -459,18 +484,15 @@ def run(chk):
             return
         if tuple(rr) != (lo, hi) or not all(isinstance(x, int) for x in rr):
             chk.violation("raw-range", "raw range is not the two's complement / unsigned range of the width", inp, (lo, hi), tuple(rr))
-        # default limits = images of the raw bounds
-        for nm, bound, got in (("min", lo, sig.min), ("max", hi, sig.max)):
-            try:
-                img = sig.raw2phys(bound)
-                okimg = isinstance(got, D) and Fraction(got) == Fraction(img)
-                if inside_envelope(bound, mf, ef, mo, eo):
-                    okimg = okimg and Fraction(got) == bound * F + O
-            except Exception as e:
-                okimg, img = False, repr(e)
-            if not okimg:
-                chk.violation("default-" + nm, "default physical %s is not the image of the raw range's bound" % nm,
-                              dict(inp, bound=bound), str(bound * F + O), str(got))
+        # default limits = the images of the two raw bounds (as a pair: for a negative factor the image of the upper raw bound
+        # is the smaller number, and the property does not say which of the two is then called min)
+        env = (mf, ef, mo, eo)
+        chk.count("default-limits:" + ("negative-factor" if F < 0 else "positive-factor"))
+        if not limits_ok(sig.min, sig.max, lo, hi, F, O, env):
+            imgs = [lo * F + O, hi * F + O]
+            bad_min = not isinstance(sig.min, D) or (inside_envelope(lo, *env) and inside_envelope(hi, *env) and Fraction(sig.min) not in imgs)
+            chk.violation("default-min" if bad_min else "default-max", "the default physical limits are not the images of the raw range's bounds",
+                          dict(inp, raw_bounds=(lo, hi)), [str(x) for x in imgs], (str(sig.min), str(sig.max)))
         try:
             s2 = C.Signal("t", size=size, is_signed=signed, factor=fs, offset=os_, min=5, max=6)
             s2.set_min(None)
@@ -486,7 +508,7 @@ def run(chk):
             [tup(sig.factor), tup(sig.offset), [rr[0], rr[1]], tup(sig.min), tup(sig.max), [z for k, v in sig.values.items() for z in (k, lab_id(v))]],
             dict(construct=inp),
             ignore=[g for g, b in ((3, lo), (4, hi)) if not inside_envelope(b, mf, ef, mo, eo)],
-            canon=canon_402 if len(exp_table) > 1 else None)
+            canon=canon_402 if (len(exp_table) > 1 or F < 0) else None)
         # -- per raw value
         out403, traws = [], []
         nontriv_scaling = not (F == 1 and O == 0)
@@ -736,8 +758,7 @@ def run(chk):
             cmin, cmax = sig.calc_min(), sig.calc_max()
             if rr != (lo, hi):
                 chk.violation("history-raw-range", "calculate_raw_range does not follow the current size/is_signed", inp, (lo, hi), rr)
-            if Fraction(cmin) != Fraction(fresh.min) or Fraction(cmax) != Fraction(fresh.max) or \
-                    (inside_envelope(lo, mf, ef, mo, eo) and Fraction(cmin) != lo * F + O) or (inside_envelope(hi, mf, ef, mo, eo) and Fraction(cmax) != hi * F + O):
+            if Fraction(cmin) != Fraction(fresh.min) or Fraction(cmax) != Fraction(fresh.max) or not limits_ok(cmin, cmax, lo, hi, F, O, (mf, ef, mo, eo)):
                 chk.violation("history-limits", "calc_min/calc_max are not the images of the current raw range under the current scaling", inp,
                               (str(fresh.min), str(fresh.max)), (str(cmin), str(cmax)))
         except Exception as e:
@@ -747,7 +768,7 @@ def run(chk):
         tflat = [z for k, v in cur.items() for z in (k, lab_id(v))]
         add(402, [header, tflat], [tup(sig.factor), tup(sig.offset), [rr[0], rr[1]], tup(cmin), tup(cmax), tflat], dict(history=inp),
             ignore=[g for g, b in ((3, lo), (4, hi)) if not inside_envelope(b, mf, ef, mo, eo)],
-            canon=canon_402 if len(cur) > 1 else None)
+            canon=canon_402 if (len(cur) > 1 or F < 0) else None)
         if traws:
             add(403, [header, tflat, traws], out403, dict(history=inp, raws=traws))
         if texts:
@@ -859,9 +880,10 @@ def run(chk):
                     stored = sig.min if which == "min" else sig.max
                     mf, ef = tup(Fd)
                     mo, eo = tup(Od)
-                    if got is not stored or (inside_envelope(bound, mf, ef, mo, eo) and Fraction(stored) != bound * Fraction(Fd) + Fraction(Od)):
-                        chk.violation("history-set-limit", "set_%s(None) does not store the image of the current raw bound" % which,
-                                      dict(history=list(hist), size=size, is_signed=signed), str(bound * Fraction(Fd) + Fraction(Od)), str(stored))
+                    imgs = [b * Fraction(Fd) + Fraction(Od) for b in (lo, hi) if inside_envelope(b, mf, ef, mo, eo)]
+                    if len(imgs) == 2 and Fraction(stored) not in imgs:
+                        chk.violation("history-set-limit", "set_%s(None) does not store an image of the current raw bounds" % which,
+                                      dict(history=list(hist), size=size, is_signed=signed), [str(x) for x in imgs], str(stored))
             except Exception as e:
                 chk.violation("exception", "editing the signal raised", dict(history=list(hist), op=op), None, repr(e))
                 break
